@@ -624,6 +624,8 @@ inductive Edit where
   /-- create `f` at `p`, replacing whatever is there: nothing (add untracked), a file, a link, or a
   whole directory; leading components that are files are replaced by directories -/
   | create (p : Path) (f : WFile)
+  /-- make `p` an (empty) directory, replacing whatever is there -/
+  | mkdir (p : Path)
   /-- any other rearrangement of the working directory -/
   | setWd (wd : FMap WFile)
   | stage (p : Path)
@@ -644,6 +646,7 @@ def applyEdit (env : Env) (w : World) : Edit → World
   | .delete p => { w with wd := w.wd.erase p }
   | .rmtree p => { w with wd := w.wd.filter (fun kv => !isAncestor p kv.1) }
   | .create p f => { w with wd := (clearAt w.wd p).put p f }
+  | .mkdir p => { w with wd := clearAt w.wd p }
   | .setWd wd => { w with wd := wd }
   | .stage p => stage w p
   | .unstage p => match unstage env w p with | .ok w' => w' | .error _ => w
